@@ -81,6 +81,22 @@ class Ref(object):
             self.banks = -(-(self.bpr * i['height']) // 0x2000)
             self.page_size = self.banks * 0x2000
 
+    def addr(self, page, x, y, plane=0):
+        """the address of the byte that holds pixel (x, y) of a page (graphics; plane: Tandy 640x200x4 only)"""
+        i = self.i
+        base = i['seg'] * 16 + page * self.page_size
+        if i['kind'] == 1:
+            return base + y * self.bpr + x // 8
+        bank, row = y % self.banks, y // self.banks
+        if i['kind'] == 2:
+            return base + bank * 0x2000 + row * self.bpr + (x // 8) * 2 + plane
+        return base + bank * 0x2000 + row * self.bpr + x // (8 // i['bpp'])
+
+    def usable_pages(self):
+        """pages whose memory lies completely inside the PEEKable video range"""
+        i = self.i
+        return [p for p in range(i['npages']) if i['seg'] * 16 + (p + 1) * self.page_size <= VIDEO_HI]
+
     def cell(self, addr):
         """-> None (not backing screen content) or (page, y, x0, npix, plane-or-None) / text: (page,row,col,is_attr)"""
         i = self.i
@@ -281,7 +297,81 @@ class C34(core.Check):
                                                  ['bloadf', 0, 160]]))
         c.append(self.mk('tandy', {}, 6, 0, 8, 4, [['bload', B8, 0, [255, 0, 255, 1, 2], ['given', 161]],
                                                   ['bloadgen', B8, 0x2001, 5, 9, ['omit']], ['bsave', B8, 0, 8]]))
+        # PCOPY onto the ACTIVE page, then draw / read memory and poke / POINT without a SCREEN statement in
+        # between (seed C34d: the graphics statements kept drawing into the page's old pixel matrix)
+        c.append(self.mk('ega', {}, 7, 0, 1, 16, [['page', 1, 0], ['hline', 0, 319, 0, 5], ['pcopy', 1, 2], ['pcopy', 2, 1],
+                                                 ['pset', 3, 0, 15], ['plane', 1], ['peek', A0, 8192], ['poke', A0, 8193, 255],
+                                                 ['point', 8, 0], ['bsave', A0, 8192, 2]]))
+        c.append(self.mk('cga', {}, 1, 0, 2, 4, [['pcopy', 1, 0], ['pset', 5, 1, 3], ['peek', B8, 0x2001], ['poke', B8, 0, 0x1b],
+                                                ['point', 0, 0], ['point', 3, 0]]))
+        c.append(self.mk('tandy', {}, 6, 0, 2, 4, [['pcopy', 1, 0], ['hline', 6, 17, 2, 2],
+                                                  ['bsave', B8, 0x4000, 6], ['poke', B8, 0x4001, 0xf0],
+                                                  ['point', 1, 2], ['point', 5, 2]]))
+        c.append(self.mk('cga', {}, 0, 80, 9, 256, [['pcopy', 0, 2], ['peek', B8, 0x2000 + 162], ['poke', B8, 160, 66],
+                                                   ['pcopy', 0, 1], ['bsave', B8, 0x1000 + 158, 6]]))
         return c
+
+    def gfx_ops(self, i, rng):
+        """a history of page switches, PCOPY and drawing statements interleaved with accesses to the memory of
+        the pixels drawn: what the graphics statements draw PEEK must see, what POKE writes POINT must see"""
+        ref = Ref(i)
+        pages = ref.usable_pages()
+        ppb = 8 if i['kind'] in (1, 2) else 8 // i['bpp']
+        ncol = 1 << i['bpp']
+        ap = 0
+        ops = []
+
+        def xy():
+            x = rng.choice([0, ppb - 1, ppb, i['width'] - 1, i['width'] - ppb, rng.randrange(i['width'])])
+            y = rng.choice([0, 1, 2, 3, i['height'] - 1, rng.randrange(i['height'])])
+            return x, y
+
+        def access(x, y):
+            a = ref.addr(ap, x, y, rng.randrange(2)) + rng.choice([0, 0, 0, 1, -1])
+            a = min(max(a, VIDEO_LO), VIDEO_HI - 1)
+            seg, off = self.split(a, i, rng)
+            return a, seg, off
+        if rng.random() < 0.7:
+            ap = rng.choice(pages)
+            ops.append(['page', ap, rng.choice(pages)])
+        for _ in range(rng.choice([2, 3, 4, 5])):
+            r = rng.random()
+            if r < 0.3:
+                dst = ap if rng.random() < 0.65 else rng.choice(pages)
+                src = rng.choice([p for p in range(i['npages']) if p != dst])
+                ops.append(['pcopy', src, dst])
+            elif r < 0.36:
+                ap = rng.choice(pages)
+                ops.append(['page', ap, rng.choice(pages)])
+            elif r < 0.7:
+                # draw, then read the memory of what was drawn
+                x, y = xy()
+                if rng.random() < 0.5:
+                    ops.append(['pset', x, y, rng.randrange(ncol)])
+                else:
+                    x1 = min(i['width'] - 1, x + rng.choice([0, 1, ppb, 2 * ppb + 1, 40]))
+                    ops.append(['hline', x, x1, y, rng.randrange(ncol)])
+                if i['kind'] == 1 and rng.random() < 0.6:
+                    ops.append(['plane', rng.randrange(4)])
+                a, seg, off = access(x, y)
+                if rng.random() < 0.6:
+                    ops.append(['peek', seg, off])
+                else:
+                    ops.append(['bsave', seg, off, min(rng.choice([1, 2, 3, 9]), VIDEO_HI - a)])
+            else:
+                # write memory, then look at the pixels with POINT
+                x, y = xy()
+                if i['kind'] == 1 and rng.random() < 0.4:
+                    ops.append(['mask', rng.choice([1, 2, 4, 8, 5, 15, 255])])
+                a, seg, off = access(x, y)
+                if rng.random() < 0.7:
+                    ops.append(['poke', seg, off, rng.randrange(256)])
+                else:
+                    ops.append(['bload', seg, off, common.rand_bytes(rng, rng.choice([1, 2, 5]))])
+                x0 = x - x % ppb
+                for xx in sorted(set([x, x0, min(i['width'] - 1, x0 + ppb - 1), min(i['width'] - 1, x0 + ppb)])):
+                    ops.append(['point', xx, y])
+        return ops
 
     def addr_pool(self, i, rng):
         base = i['seg'] * 16
@@ -345,6 +435,11 @@ class C34(core.Check):
                 full = 16
             prange = 256 if rng.random() < 0.15 else full
             ops = []
+            if i['kind'] != 3 and len(Ref(i).usable_pages()) >= 2 and rng.random() < 0.4:
+                ops = self.gfx_ops(i, rng)
+                hist['graphics history'] = hist.get('graphics history', 0) + 1
+                out.append(self.mk(ad, opts, scr, w, rng.randrange(256), prange, ops))
+                continue
             for _ in range(rng.choice([1, 2, 3, 3, 4, 5, 6])):
                 r = rng.random()
                 a = self.addr_pool(i, rng)
@@ -354,6 +449,11 @@ class C34(core.Check):
                     if prev[0] in ('peek', 'poke', 'bsave', 'bload', 'bloadgen') and rng.random() < 0.8:
                         a = min(max(prev[1] * 16 + prev[2] + rng.choice([0, 0, 0, 1, -1, 2, -5]), VIDEO_LO), VIDEO_HI - 1)
                 seg, off = self.split(a, i, rng)
+                if i['npages'] >= 2 and rng.random() < 0.08:
+                    dst = rng.randrange(i['npages'])
+                    ops.append(['pcopy', rng.choice([p for p in range(i['npages']) if p != dst]), dst])
+                    hist['pcopy'] = hist.get('pcopy', 0) + 1
+                    continue
                 if i['kind'] == 1 and rng.random() < 0.3:
                     if rng.random() < 0.5:
                         ops.append(['plane', rng.choice([0, 1, 2, 3, 3, 4, 5, 7, 255])])
@@ -435,7 +535,20 @@ class C34(core.Check):
             if ok and (p, a, b) not in seen and len(pr) < 90:
                 seen.add((p, a, b))
                 pr.append([p, a, b])
+        ap = 0
         for op in case['ops']:
+            if op[0] == 'page':
+                ap = op[1]
+            elif op[0] in ('pset', 'point'):
+                for dx in (0, -1, 1):
+                    add(ap, op[2], op[1] + dx)
+            elif op[0] == 'hline':
+                for x in (op[1] - 1, op[1], (op[1] + op[2]) // 2, op[2], op[2] + 1):
+                    add(ap, op[3], x)
+            elif op[0] == 'pcopy' and i['kind'] != 3:
+                add(op[2], case['seed'] % i['height'], (case['seed'] * 7) % i['width'])
+            elif op[0] == 'pcopy':
+                add(op[2], case['seed'] % i['height'], (case['seed'] * 7) % i['width'])
             for a in self.op_addrs(op, case['ops']):
                 for aa in (a, a - 1, a + 1):
                     c = ref.cell(aa)
@@ -506,10 +619,36 @@ class C34(core.Check):
             out = []
             recs = []
             err = None
+            ap = 0
+            ref = Ref(i)
             for k, op in enumerate(case['ops']):
                 kind = op[0]
-                rec = {'op': op}
-                if kind in ('plane', 'mask'):
+                rec = {'op': op, 'ap': ap}
+                if kind in ('page', 'pcopy', 'pset', 'hline'):
+                    stmt = {'page': 'SCREEN ,,%d,%d', 'pcopy': 'PCOPY %d,%d', 'pset': 'PSET (%d,%d),%d',
+                            'hline': 'LINE (%d,{y})-(%d,{y}),%d'}[kind]
+                    if kind == 'hline':
+                        stmt = stmt.format(y=op[3]) % (op[1], op[2], op[4])
+                    else:
+                        stmt = stmt % tuple(op[1:])
+                    e = self.basic_error(s.execute(stmt))
+                    if kind == 'page' and e is None:
+                        ap = op[1]
+                    if e is None and kind in ('pcopy', 'pset', 'hline'):
+                        rec['snap'] = self.snapshot(s, i)
+                    if bytewise and e is None and kind in ('pset', 'hline'):
+                        xs = [op[1]] if kind == 'pset' else sorted(set([op[1], (op[1] + op[2]) // 2, op[2]]))
+                        y = op[2] if kind == 'pset' else op[3]
+                        rec['mem'] = [self.decode_pixel(s, i, ref, ap, x, y) for x in xs]
+                elif kind == 'point':
+                    v = s.evaluate('POINT(%d,%d)' % (op[1], op[2]))
+                    e = 0 if v is None else None
+                    if v is not None:
+                        out.append(int(v))
+                        rec['res'] = int(v)
+                        if bytewise:
+                            rec['mem'] = self.decode_pixel(s, i, ref, ap, op[1], op[2])
+                elif kind in ('plane', 'mask'):
                     r = s.execute('OUT %s,%d' % ('&H3CF' if kind == 'plane' else '&H3C5', op[1]))
                     e = self.basic_error(r)
                     rec['res'] = None
@@ -544,6 +683,8 @@ class C34(core.Check):
                         else:
                             out.append(int(v))
                             rec['res'] = int(v)
+                            if bytewise:
+                                rec['points'] = self.points_of(s, i, ref, ap, addr)
                     elif e is None and kind == 'poke':
                         if bytewise:
                             rec['before'] = self.snapshot(s, i)
@@ -554,6 +695,7 @@ class C34(core.Check):
                             rec['readback'] = mem._get_memory(addr)
                             rec['plane'] = getattr(s._impl.display.mode.memorymap, '_plane', None)
                             rec['mask'] = getattr(s._impl.display.mode.memorymap, '_plane_mask', None)
+                            rec['points'] = self.points_of(s, i, ref, ap, addr)
                     elif e is None and kind == 'bsave':
                         n = op[3]
                         if bytewise:
@@ -601,6 +743,54 @@ class C34(core.Check):
                 s.close()
             common.rmtree(d)
 
+    def points_of(self, s, i, ref, ap, addr):
+        """the pixels an address of the ACTIVE page covers as POINT reports them: (cell, row with those pixels)"""
+        if i['kind'] == 3:
+            return None
+        cell = ref.cell(addr)
+        if cell is None or cell[0] != ap:
+            return None
+        row = bytearray(i['width'])
+        for x in range(cell[2], cell[2] + cell[3]):
+            v = s.evaluate('POINT(%d,%d)' % (x, cell[1]))
+            if v is None or not 0 <= int(v) <= 255:
+                return None
+            row[x] = int(v)
+        return [list(cell), bytes(row)]
+
+    def decode_pixel(self, s, i, ref, page, x, y):
+        """the attribute of pixel (x, y) as video memory encodes it (read byte by byte through Memory), or None
+        when its memory is outside the PEEKable range; the EGA read plane register is restored"""
+        mem = s._impl.all_memory
+        a = ref.addr(page, x, y)
+        if not (VIDEO_LO <= a < VIDEO_HI - 1):
+            return None
+        if i['kind'] == 0:
+            bpp = i['bpp']
+            k = x % (8 // bpp)
+            return (mem._get_memory(a) >> (8 - bpp - k * bpp)) & ((1 << bpp) - 1)
+        if i['kind'] == 2:
+            sh = 7 - x % 8
+            return ((mem._get_memory(a) >> sh) & 1) | (((mem._get_memory(a + 1) >> sh) & 1) << 1)
+        mm = s._impl.display.mode.memorymap
+        saved = mm._plane
+        v = 0
+        try:
+            for p in i['planes_used']:
+                mm.set_plane(p)
+                v |= ((mem._get_memory(a) >> (7 - x % 8)) & 1) << p
+        finally:
+            mm.set_plane(saved)
+        return v
+
+    def vmask(self, i):
+        """the bits of a pixel that video memory holds"""
+        if i['kind'] == 0:
+            return (1 << i['bpp']) - 1
+        if i['kind'] == 2:
+            return 3
+        return sum(1 << p for p in i['planes_used'])
+
     def impl(self, case):
         with core.time_limit(240):
             out, recs, snap, i = self.run_session(case, False)
@@ -617,6 +807,16 @@ class C34(core.Check):
                 ops.append('OpPlane %d' % op[1])
             elif k == 'mask':
                 ops.append('OpMask %d' % op[1])
+            elif k == 'page':
+                ops.append('OpPage %d' % op[1])
+            elif k == 'pcopy':
+                ops.append('OpPcopy %d %d' % (op[1], op[2]))
+            elif k == 'pset':
+                ops.append('OpPset %d %d %d' % (op[1], op[2], op[3]))
+            elif k == 'hline':
+                ops.append('OpHline %d %d %d %d' % (op[1], op[2], op[3], op[4]))
+            elif k == 'point':
+                ops.append('OpPoint %d %d' % (op[1], op[2]))
             elif k == 'bloadf':
                 f = bloadf_of(op, case['ops'])
                 if f is not None:
@@ -684,6 +884,26 @@ class C34(core.Check):
                 continue
             if kind == 'mask':
                 continue
+            if kind in ('pcopy', 'page'):
+                if ra.get('snap') != rb.get('snap'):
+                    return 'page buffers differ between the two sessions after %s' % (op,)
+                continue
+            if kind in ('pset', 'hline'):
+                # what a graphics statement draws is what video memory encodes
+                for got in rb.get('mem', []):
+                    if got is not None and got != op[-1] & self.vmask(i):
+                        return '%s on page %d: video memory encodes attribute %d there, not %d' % (
+                            op, rb['ap'], got, op[-1])
+                if ra.get('snap') != rb.get('snap'):
+                    return 'page buffers differ between the two sessions after %s' % (op,)
+                continue
+            if kind == 'point':
+                if 'res' in rb and rb.get('mem') is not None and rb['res'] & self.vmask(i) != rb['mem']:
+                    return 'POINT(%d,%d) on page %d = %d but video memory encodes %d' % (
+                        op[1], op[2], rb['ap'], rb['res'], rb['mem'])
+                if ra.get('res') != rb.get('res'):
+                    return 'POINT(%d,%d) differs between the two sessions' % (op[1], op[2])
+                continue
             if kind == 'bloadf':
                 if 'snap' in ra and 'snap' in rb and ra['snap'] != rb['snap']:
                     return 'BLOAD "f"%s of the %d bytes BSAVEd from offset %d differs from POKEs of those bytes at %#x' % (
@@ -732,6 +952,12 @@ class C34(core.Check):
                         writable = pl in pu and ((rb['mask'] & i['master']) >> pl) & 1 == 1
                     if writable and rb['readback'] != op[3]:
                         return 'PEEK after POKE %#x,%d returns %d' % (addr, op[3], rb['readback'])
+                if rb.get('points'):
+                    pc, prow = rb['points']
+                    want = self.pack(i, {pc[0]: {pc[1]: prow}}, tuple(pc), rb['plane'] or 0)
+                    if rb['readback'] != want:
+                        return 'after POKE %#x,%d PEEK returns %d but the pixels POINT reports encode %d' % (
+                            addr, op[3], rb['readback'], want)
             if kind == 'peek' and 'res' in rb:
                 snap = self._snap_before(recs_b, k, case, i)
                 cell = ref.cell(addr)
@@ -744,6 +970,12 @@ class C34(core.Check):
                     want = self.pack(i, snap, cell, plane_reg)
                 if rb['res'] != want:
                     return 'PEEK(%#x) = %d but the screen content it covers encodes %d' % (addr, rb['res'], want)
+                if rb.get('points'):
+                    pc, prow = rb['points']
+                    want = self.pack(i, {pc[0]: {pc[1]: prow}}, tuple(pc), plane_reg)
+                    if rb['res'] != want:
+                        return 'PEEK(%#x) = %d but the pixels POINT reports on the active page encode %d' % (
+                            addr, rb['res'], want)
                 if ra.get('res') != rb['res']:
                     return 'PEEK(%#x) differs between the two sessions' % addr
             if kind == 'bsave' and 'res' in ra and 'res' in rb:
